@@ -802,6 +802,16 @@ class Effects:
     def _place_value_regions(self, b, pl, pts):
         """Regions a pointer *stored in* the place may point to."""
         out = set(pts.get(pl['l'], set()))
+        fs = place_fields(pl)
+        if fs:
+            adt, name = fs[-1]
+            a = self.prog.adts.get(adt)
+            if a:
+                for v in a['variants']:
+                    for f in v['fields']:
+                        if f['name'] == name and f['ty']['s'].startswith('std::boxed::Box<'):
+                            # an owned heap block is part of the field that owns it
+                            out.add(('field', adt, name, 'mut'))
         return out
 
     # ---- direct effects ---------------------------------------------------------------------------
